@@ -517,7 +517,12 @@ func init() {
 				byT[engPool[i].text()] = engPool[i]
 			}
 			st := stringStorage(joinLines(lines) + "\n")
-			if len(lines) > 1 {
+			if li%2 == 0 {
+				// three lists, the middle one comments only, no terminator after the last line; file-backed for every eighth case
+				var release func()
+				st, release = deployStorage(lines, li%8 == 0)
+				defer release()
+			} else if len(lines) > 1 {
 				// one list per rule, list ids in no particular order
 				var lists []filterlist.RuleList
 				for k, l := range lines {
